@@ -195,7 +195,7 @@ def step (s0 : Sess) (c : Cmd) : Sess × String × String :=
           let z := enc a.dataLen 0
           let (pos, rem) := s.zsame
           let pr (o : Option (Elem × Elem)) (st : Stat) : Option String × Option String :=
-            if st = .ok then (o.map fun p => toString (dec p.1), o.map fun p => toString (dec p.2)) else (none, none)
+            if st = .ok && c.nat "noout" 0 == 0 then (o.map fun p => toString (dec p.1), o.map fun p => toString (dec p.2)) else (none, none)
           let fin (it : ArraySized.Iter) (a : ArraySized) (m : Mem) (xs : List Elem) (zs : Nat × Bool) (hS hM : String) :=
             lines hS hM { s with model := setSlot s.model k1 (some a), spec := setSlot s.spec k1 (some xs),
                                  mem := m, zit := some (k1, k2, it), zsame := zs }
@@ -229,7 +229,7 @@ def step (s0 : Sess) (c : Cmd) : Sess × String × String :=
         let e1 := enc a1.dataLen (c.arg 0)
         let e2 := enc a2.dataLen (c.arg 1)
         let pr (o : Option (Elem × Elem)) (st : Stat) : Option String × Option String :=
-          if st = .ok then (o.map fun p => toString (dec p.1), o.map fun p => toString (dec p.2)) else (none, none)
+          if st = .ok && c.nat "noout" 0 == 0 then (o.map fun p => toString (dec p.1), o.map fun p => toString (dec p.2)) else (none, none)
         let fin (it : ArraySized.Iter) (a1 a2 : ArraySized) (m : Mem) (cur : ZipCursor Elem) (hS hM : String) :=
           lines hS hM { s with model := setSlot (setSlot s.model k1 (some a1)) k2 (some a2),
                                spec := setSlot (setSlot s.spec k1 (some cur.content1)) k2 (some cur.content2),
